@@ -18,6 +18,7 @@ import uuid
 
 from .. import hooks
 from ..lex import DIALECT_OF, sig, tokenize
+from ..fingerprint import contexts
 from ..prog import DIALECT_CLASSES, P, Cls, Failed, Interp, enc, registry, run
 from ..values import kinds, random_value
 
@@ -136,6 +137,14 @@ def cases(tier, seed, shard, nshards):
                     k += 1
                     if k % nshards == shard:
                         yield {"pos": pos, "d": d, "kind": kind, "label": label, "v": enc(v), "x": True}
+    # numeric literals next to minus signs (binary minus, unary minus, left-most leaf of a product under a minus)
+    from ..values import DECIMAL_VALUES, FLOAT_VALUES, INT_VALUES
+    for d in DIALECT_CLASSES:
+        for shape in MINUS_SHAPES:
+            for v in INT_VALUES + FLOAT_VALUES + DECIMAL_VALUES + [-0.0, -1.5, -1e-7, decimal.Decimal("-2.50")]:
+                k += 1
+                if k % nshards == shard:
+                    yield {"k": "minus", "d": d, "shape": shape, "v": enc(v)}
     n = (160000 if tier == "quick" else 2400000) // nshards
     rnd = random.Random("C05:%d:%d" % (seed, shard))
     plist = list(POSITIONS)
@@ -291,7 +300,58 @@ def feature(kind, v):
     return kind
 
 
+MINUS_SHAPES = ["a-v", "-v", "a-v*b", "a-(-v)", "v-a", "-(v*b)", "a-v/b"]
+
+
+def run_minus(case, mon):
+    """A numeric literal that may be spelt with a leading minus, placed next to minus operators: the statement must lex without a
+    comment, contain the literal's digits exactly once, and (SQLite) evaluate to what Python computes for the same tree."""
+    reg = registry()
+    d = case["d"]
+    v = Interp().dec(case["v"])
+    Q = reg[d]
+    t = reg["Table"]("t")
+    W = reg["ValueWrapper"]
+    a, b = t.a, t.b
+    shape = case["shape"]
+    tree = {"a-v": lambda: a - v, "-v": lambda: -W(v), "a-v*b": lambda: a - W(v) * b, "a-(-v)": lambda: a - (-W(v)), "v-a": lambda: W(v) - a,
+            "-(v*b)": lambda: -(W(v) * b), "a-v/b": lambda: a - W(v) / b}[shape]()
+    sql = Q.from_(t).select(tree).get_sql(contexts()[d])
+    fam = DIALECT_OF[d] if d != "Query" else "generic"
+    toks = tokenize(sql, d)
+    mon.count("minus_adjacent_statements")
+    bad = [tk for tk in toks if tk.kind in ("COMMENT", "ERR")]
+    if bad:
+        mon.violation("%s:minus-fuses-into-comment:%s" % (fam, shape), "%r next to a minus sign (%s): %s token %r in %r" % (v, shape, bad[0].kind, bad[0].text[:20], sql))
+        return
+    nums = [tk for tk in toks if tk.kind == "NUM"]
+    if len(nums) != 1 or abs(nums[0].value) != abs(decimal.Decimal(repr(v)) if isinstance(v, float) else decimal.Decimal(v)):
+        mon.violation("%s:minus-literal-lost:%s" % (fam, shape), "%r (%s): the statement does not contain the literal's magnitude exactly once: %r" % (v, shape, sql))
+        return
+    if d == "SQLLiteQuery" and abs(float(v)) < 1e15 and (abs(float(v)) > 1e-300 or float(v) == 0):
+        av, bv = 10.0, 4.0
+        fv = float(v)
+        want = {"a-v": av - fv, "-v": -fv, "a-v*b": av - fv * bv, "a-(-v)": av - (-fv), "v-a": fv - av, "-(v*b)": -(fv * bv), "a-v/b": av - fv / bv}[shape]
+        con = sqlite3.connect(":memory:")
+        try:
+            con.execute("CREATE TABLE t(a REAL, b REAL)")
+            con.execute("INSERT INTO t VALUES (10.0, 4.0)")
+            got = con.execute(sql).fetchone()[0]
+            mon.count("sqlite_engine_evaluations")
+            if not isinstance(got, (int, float)) or abs(got - want) > 1e-9 * max(1.0, abs(want)):
+                mon.violation("sqlite:minus-value:%s" % shape, "%r (%s): SQLite evaluates %r to %r, the tree means %r" % (v, shape, sql, got, want))
+                return
+        except sqlite3.Error as e:
+            mon.violation("sqlite:minus-rejected:%s" % shape, "%r (%s): SQLite rejects %r: %s" % (v, shape, sql, e))
+            return
+        finally:
+            con.close()
+    mon.nontrivial(["minus", d, shape, repr(v)])
+
+
 def run_case(case, mon):
+    if case.get("k") == "minus":
+        return run_minus(case, mon)
     d, pos, kind = case["d"], case["pos"], case["kind"]
     v = Interp().dec(case["v"])
     marker = MARKERS[kind]
